@@ -602,13 +602,13 @@ class SecurityIssues(IntFlag):
 
     @property
     def causes_signature_verify_to_fail(self):
-        return self in {
-            SecurityIssues.WrongSig,
-            SecurityIssues.Expired,
-            SecurityIssues.Disabled,
-            SecurityIssues.Invalid,
-            SecurityIssues.NoSelfSignature,
-        }
+        return bool(self & (
+            SecurityIssues.WrongSig
+            | SecurityIssues.Expired
+            | SecurityIssues.Disabled
+            | SecurityIssues.Invalid
+            | SecurityIssues.NoSelfSignature
+        ))
 
 
 # https://safecurves.cr.yp.to/
